@@ -58,11 +58,11 @@ def gen_plan(tape, cfg):
         srt = tape.choice([bp.BOOL, bp.BOOL, bp.INT, bp.REAL, symbols["b0"], symbols["A"]], "pool.sort")
         pool.append(richgen.gen(tape, srt, tape.rint(1, 3, "pool.depth"), ctx))
     nclients = tape.rint(2, 4, "clients")
-    nenv = tape.rint(1, 2, "envs")
+    nenv = tape.rint(1, 3, "envs")
     ops = []
     for _ in range(tape.rint(30, 120, "nops")):
         k = tape.weighted([(10, "build"), (2, "illtyped"), (2, "simplify"), (2, "substitute"), (3, "normalize"),
-                           (2, "const"), (2, "eqhash"), (1, "collapse")], "op")
+                           (2, "const"), (2, "eqhash"), (1, "collapse"), (1, "quant_order")], "op")
         o = {"op": k, "client": tape.draw(nclients, "client"), "env": tape.draw(nenv, "env"),
              "i": tape.draw(len(pool), "formula")}
         if k == "build":
@@ -73,13 +73,19 @@ def gen_plan(tape, cfg):
             o["a"] = richgen.gen(tape, tape.choice([bp.INT, bp.REAL, bp.STRING, bp.BV(3)], "ill.a"), 1, ctx)
             o["b"] = richgen.gen(tape, tape.choice([bp.BOOL, bp.BV(2)], "ill.b"), 1, ctx)
         elif k == "const":
-            o["kind"] = tape.choice(["real", "int", "bv", "sbv", "str", "bool"], "const.kind")
+            o["kind"] = tape.choice(["real", "int", "bv", "sbv", "str", "bool", "realfloat"], "const.kind")
+            o["fl"] = tape.choice([0.1, 3.3, 1e-3, -0.7, 2.5, 0.2, 1.1], "const.float")
             o["num"] = tape.rint(-6, 9, "const.num")
             o["den"] = tape.choice([1, 1, 2, 4, 3], "const.den")
             o["w"] = tape.rint(1, 6, "const.w")
             o["order"] = tape.shuffle([0, 1, 2, 3], "const.order")
         elif k == "eqhash":
             o["j"] = tape.draw(len(pool), "other")
+        elif k == "normalize":
+            o["to"] = tape.draw(nenv, "normalize.to")
+        elif k == "quant_order":
+            o["q"] = tape.choice(["forall", "exists"], "qo.q")
+            o["dup"] = tape.chance(1, 4, "qo.dup")
         ops.append(o)
     return {"symbols": symbols, "pool": pool, "clients": nclients, "envs": nenv, "ops": ops}
 
@@ -482,6 +488,26 @@ def execute(plan, tape):
                         objs.append(_real_spelling(mgr, fr.numerator, fr.denominator, sp))
                     want = ("real", fr)
                     probe("same_real_four_spellings")
+                elif kind == "realfloat":
+                    # a float denotes exactly its binary value: every spelling of that value is one object
+                    fl = o.get("fl", 0.1)
+                    exact = Fraction(fl)
+                    makers = [lambda: mgr.Real(fl), lambda: mgr.Real(exact),
+                              lambda: mgr.Real((exact.numerator, exact.denominator)), lambda: mgr.Real(fl)]
+                    for sp in o.get("order", [0, 1, 2, 3]):
+                        objs.append(makers[sp]())
+                    want = ("real", exact)
+                    # and the decimal fraction the literal looks like is a different value
+                    import decimal
+                    looks = Fraction(decimal.Decimal(repr(fl)))
+                    if looks != exact:
+                        other = mgr.Real(looks)
+                        register(ei, other, o["client"], "const", step, where)
+                        if other is objs[0] or Fraction(other.constant_value()) != looks:
+                            raise Violation("C04:constant-spelling",
+                                            "%s: Real(%r) [= %s exactly] and Real(%s) are one object / misreport their value" %
+                                            (where, fl, exact, looks))
+                    probe("real_from_non_dyadic_float")
                 elif kind == "int":
                     objs = [mgr.Int(o["num"]), mgr.Int(int(o["num"]))]
                     want = ("int", o["num"])
@@ -516,6 +542,34 @@ def execute(plan, tape):
                     if iv is c0 or iv == c0:
                         raise Violation("C04:real-int-confused", "%s: Real(%s) and Int(%s) are one object" % (where, want[1], want[1]))
                 trace.append(("const", kind))
+            elif k == "quant_order":
+                import pysmt.typing as T
+                body = bp.build(t, env) if bp.sort_of(t) == bp.BOOL else mgr.TRUE()
+                # binder symbols created in an order unrelated to the order they are bound in
+                names = ["qo_c%d" % o["client"], "qo_b", "qo_a"]
+                vs = [mgr.Symbol(n, T.INT if j != 1 else T.BOOL) for j, n in enumerate(names)]
+                Q = mgr.ForAll if o["q"] == "forall" else mgr.Exists
+                orders = [[vs[2], vs[0]], [vs[0], vs[2]], [vs[1], vs[2], vs[0]], [vs[0], vs[1], vs[2]]]
+                if o.get("dup"):
+                    orders.append([vs[0], vs[0]])
+                objs = []
+                for od in orders:
+                    qf = Q(od, body)
+                    register(ei, qf, o["client"], "quant", step, where)
+                    if list(qf.quantifier_vars()) != od:
+                        raise Violation("C04:accessor:payload", "%s: %s over %s reports variables %s" %
+                                        (where, o["q"], [str(v) for v in od], [str(v) for v in qf.quantifier_vars()]))
+                    if Q(list(od), body) is not qf:
+                        raise Violation("C04:two-objects-one-structure", "%s: the same quantifier built twice" % where)
+                    objs.append(qf)
+                for a_ in range(len(objs)):
+                    for b_ in range(a_ + 1, len(objs)):
+                        if objs[a_] is objs[b_]:
+                            raise Violation("C04:one-object-two-structures",
+                                            "%s: binder lists %s and %s gave one object" %
+                                            (where, [str(v) for v in orders[a_]], [str(v) for v in orders[b_]]))
+                probe("quantifier_binder_orders")
+                trace.append(("quant_order", o["q"]))
             elif k == "collapse":
                 f = bp.build(t, env)
                 srt = bp.sort_of(t)
@@ -553,7 +607,11 @@ def execute(plan, tape):
                     continue
                 src = bp.build(t, env)
                 register(ei, src, o["client"], "src", step, where)
-                ti = 1 - ei
+                ti = o.get("to", 1 - ei) % len(envs)
+                if ti == ei:
+                    ti = (ei + 1) % len(envs)
+                if len(envs) > 2:
+                    probe("normalize_among_three_environments")
                 tgt_env = envs[ti]
                 cp = tgt_env.formula_manager.normalize(src)
                 penv.push_env(tgt_env)
